@@ -1,4 +1,4 @@
-import CnbVerif.Lemmas.EnvLayoutSpec
+import CnbVerif.Lemmas.Effective
 /-!
 # C03 — layer env is persisted in the spec's on-disk layout and reads back unchanged
 
@@ -36,6 +36,12 @@ theorem layout_is_spec_files (ins : List Ins) (layer : Dir) (hl : LayerOk layer)
       (∀ p f c, (∃ es ps, l'.get nEnvLaunch = some (.dir es) ∧ (p, Node.dir ps) ∈ es ∧ (f, Node.file c) ∈ ps) ↔
         SpecFileIn ins (.process p) f c) :=
   layout_spec_files ins layer hl hok
+
+/-- **M1c (the oracle is the spec).** The file list the driver compares the real directory with, `Spec.specFiles ins`, holds
+exactly the `SpecFileIn` files of each scope's directory: the executable oracle and the theorem's specification coincide. -/
+theorem oracle_files_are_spec_files (ins : List Ins) (path : List Bytes) (c : Bytes) :
+    (path, c) ∈ Spec.specFiles ins ↔ ∃ s f, path = Spec.scopeDir s ++ [f] ∧ SpecFileIn ins s f c :=
+  mem_specFiles_iff ins path c
 
 /-- **M1b.** The generated writer suffixes are the spec's: file name = `NAME` ++ `.` ++ suffix name. -/
 theorem file_names_are_spec_names (e : Entry) :
